@@ -19,6 +19,10 @@ Recognised expressions E:
                               quotient}_op<double, double>, ..>  (the functor is checked against the operator)
     -E                        Eigen::CwiseUnaryOp<scalar_opposite_op<double>, ..>
     E.square()                Eigen::CwiseUnaryOp<scalar_square_op<double>, ..>: the coefficient times itself
+    I.cast<double>()          (only with hook(int_view=<C type>)) Eigen::CwiseUnaryOp<scalar_cast_op<long|int, double>, ..> of a 1-D
+                              INTEGER view leaf I (through .array() / .matrix()); the spec maps the C++ type of I to the C type
+                              `int_view` = struct { int64_t* g | int64_t g...; int64_t n, k; } whose `(*I.g)` is the tracked coefficient:
+                              the coefficient converted to double (a real C cast, not uninterpreted)
     E * s, s * E, E + s ...   (only with hook(scalars=True)) an operand of C++ type double: Eigen's broadcast constant
     (E), E.array(), E.matrix(), E.transpose()
                               coefficient-preserving adaptors (transpose only on a 1-D operand of rowwise())
@@ -52,7 +56,7 @@ def _callee(n):
     return unwrap(n['inner'][0]).get('referencedDecl', {}).get('name')
 
 
-def hook(view1, view2=None, matvec=None, dest=(), scalars=False):
+def hook(view1, view2=None, matvec=None, dest=(), scalars=False, int_view=None):
     """dest: further regexes on the (cv-stripped) C++ type of a destination this hook owns (default: ArrayWrapper /
     VectorwiseOp only), e.g. r'^Eigen::Map<Eigen::Matrix<double, -1, 1' for `tensor.vector(i) += ...`;
     scalars=True: an operand of C++ type double of a coefficient-wise binary operator is Eigen's broadcast constant
@@ -102,6 +106,18 @@ def hook(view1, view2=None, matvec=None, dest=(), scalars=False):
             return f'(*{v}.g)'
         k = u.get('kind')
         t = strip_cv(qual(u.get('type')))
+        if int_view is not None and d2 is None and k == 'CXXMemberCallExpr' and u['inner'][0].get('kind') == 'MemberExpr' \
+                and u['inner'][0].get('name') == 'cast' and len(u['inner']) == 1:
+            if not re.match(r'Eigen::CwiseUnaryOp<Eigen::internal::scalar_cast_op<(long|int), double>,', t):
+                raise Unsupported(f'eigencw: cast() with result type {t[:90]}')
+            leaf = int_leaf(P, u['inner'][0]['inner'][0])
+            if leaf is None:
+                raise Unsupported('eigencw: cast<double>() of something that is not an integer 1-D view')
+            v = cx.bind(int_view, P.expr(leaf))
+            cx.check(f'{v}.n == {n_expr}', 'Eigen coefficient-wise operation: operand sizes agree')
+            cx.check(f'{v}.k == {k_expr}', 'nv ghost-element model: operands are tracked at the same position')
+            P.note('eigencw: cast<double>() of an integer view -> the tracked coefficient converted to double')
+            return f'((double)(*{v}.g))'
         if scalars and c == 'double' and cx.in_binary:
             P.note('eigencw: scalar operand broadcast over the coefficients')
             return cx.bind('double', P.expr(u))
@@ -145,11 +161,24 @@ def hook(view1, view2=None, matvec=None, dest=(), scalars=False):
                 return arith(P, '*', a, a)
         raise Unsupported(f'eigencw: expression kind {k} of type {t[:90]} is not in the recognised list')
 
+    def int_leaf(P, n):
+        """the integer 1-D view under coefficient-preserving adaptors, or None"""
+        u = _strip(n)
+        if ctype_or_none(P, u) == int_view:
+            return u
+        if u.get('kind') == 'CXXMemberCallExpr' and u['inner'][0].get('kind') == 'MemberExpr' and len(u['inner']) == 1 \
+                and u['inner'][0].get('name') in ADAPTORS:
+            return int_leaf(P, u['inner'][0]['inner'][0])
+        return None
+
     def first_leaf(P, n):
         """the first 1-D view leaf of a coefficient-wise expression (evaluation order), or None"""
         u = _strip(n)
         if ctype_or_none(P, u) == view1:
             return u
+        if int_view is not None and u.get('kind') == 'CXXMemberCallExpr' and u['inner'][0].get('kind') == 'MemberExpr' \
+                and len(u['inner']) == 1 and u['inner'][0].get('name') == 'cast':
+            return int_leaf(P, u['inner'][0]['inner'][0])
         if u.get('kind') == 'CXXOperatorCallExpr':
             for a in u['inner'][1:]:
                 r = first_leaf(P, a)
@@ -167,7 +196,7 @@ def hook(view1, view2=None, matvec=None, dest=(), scalars=False):
         if ref_node is None:
             return None
         cx = Ctx(P, '')
-        ref = cx.bind(view1, P.expr(ref_node))
+        ref = cx.bind(ctype_or_none(P, ref_node) or view1, P.expr(ref_node))
         val = kernel(cx, e, f'{ref}.n', f'{ref}.k')
         inside = f'(0 <= {ref}.k && {ref}.k < {ref}.n)'
         z = '0.0'
